@@ -36,8 +36,12 @@ type c14input struct {
 }
 
 type c14graph struct {
-	name   string
-	root   parsley.Parser
+	name string
+	// build constructs a FRESH instance of the graph. The expected outcomes are computed on one private
+	// instance and every concurrent round gets its own new shared instance, so that state a parser graph
+	// might accumulate on first use (caches, size hints, lazily initialised tables) is first touched
+	// while several goroutines are inside it - a warmed-up shared instance would hide such writes.
+	build  func() parsley.Parser
 	eval   bool
 	inputs []c14input
 }
@@ -105,7 +109,7 @@ func c14graphs(r *rand.Rand, yieldEvery int64) []*c14graph {
 	var gs []*c14graph
 	// JSON example
 	jg := &jsonGen{r: r}
-	jgr := &c14graph{name: "json example", root: combinator.Sentence(text.Trim(json.NewParser())), eval: true}
+	jgr := &c14graph{name: "json example", build: func() parsley.Parser { return combinator.Sentence(text.Trim(json.NewParser())) }, eval: true}
 	for i := 0; i < 10; i++ {
 		doc := jg.doc(1 + r.Intn(3))
 		if i%2 == 1 && len(doc) > 1 { // failure inputs: the pinned race is on the failure path
@@ -114,10 +118,14 @@ func c14graphs(r *rand.Rand, yieldEvery int64) []*c14graph {
 		jgr.inputs = append(jgr.inputs, c14input{text: doc})
 	}
 	jgr.inputs = append(jgr.inputs, c14input{text: `{"a" 1}`}, c14input{text: `[1, 2`}, c14input{text: ""})
+	// size-diverse inputs: long lists and deep nesting reach code that short inputs never execute
+	long := "[" + strings.Repeat("1, ", 20+r.Intn(40)) + "2]"
+	jgr.inputs = append(jgr.inputs, c14input{text: long}, c14input{text: long[:len(long)-1]},
+		c14input{text: "{" + strings.Repeat(`"k": [true, null], `, 18+r.Intn(10)) + `"z": {}}`},
+		c14input{text: strings.Repeat("[", 30) + "0" + strings.Repeat("]", 30)})
 	gs = append(gs, jgr)
 	// arithmetic
-	ar := newArith()
-	agr := &c14graph{name: "left-recursive arithmetic", root: ar.Root, eval: true}
+	agr := &c14graph{name: "left-recursive arithmetic", build: func() parsley.Parser { return newArith().Root }, eval: true}
 	for i := 0; i < 10; i++ {
 		g := &arithGen{r: r, maxDepth: 2 + r.Intn(3), zeroBias: 15, ws: c05ws}
 		var sb strings.Builder
@@ -129,15 +137,20 @@ func c14graphs(r *rand.Rand, yieldEvery int64) []*c14graph {
 		}
 		agr.inputs = append(agr.inputs, c14input{text: s})
 	}
+	agr.inputs = append(agr.inputs, c14input{text: "1" + strings.Repeat(" + 2 * 3", 25+r.Intn(20))}, c14input{text: strings.Repeat("(", 20) + "7" + strings.Repeat(")", 20) + "/0"})
 	gs = append(gs, agr)
 	// seed corpus grammars (left recursive) built WITHOUT stateful probes
 	corpus := gram.SeedCorpus()
 	for _, k := range []int{0, 2, 4, 5, 9} {
 		s := corpus[k]
-		b := gram.Build(s.G, c14hooks(yieldEvery))
-		cg := &c14graph{name: "corpus " + s.Name, root: combinator.Sentence(b.NTs[0])}
+		cg := &c14graph{name: "corpus " + s.Name, build: func() parsley.Parser {
+			return combinator.Sentence(gram.Build(s.G, c14hooks(yieldEvery)).NTs[0])
+		}}
 		for _, in := range s.Inputs {
 			cg.inputs = append(cg.inputs, c14input{text: in})
+		}
+		if k == 0 || k == 9 { // P -> P b | a and E -> E b T | T ... : long left-recursive inputs
+			cg.inputs = append(cg.inputs, c14input{text: "a" + strings.Repeat("b", 40+r.Intn(30))}, c14input{text: "a" + strings.Repeat("ba", 30)})
 		}
 		gs = append(gs, cg)
 	}
@@ -154,16 +167,31 @@ func c14graphs(r *rand.Rand, yieldEvery int64) []*c14graph {
 		if len(ins) == 0 {
 			continue
 		}
-		b := gram.Build(g, c14hooks(yieldEvery))
-		rg := &c14graph{name: "random " + g.String(), root: combinator.Sentence(b.NTs[nt])}
+		rg := &c14graph{name: "random " + g.String(), build: func() parsley.Parser {
+			return combinator.Sentence(gram.Build(g, c14hooks(yieldEvery)).NTs[nt])
+		}}
 		for _, in := range ins {
 			rg.inputs = append(rg.inputs, c14input{text: in})
 		}
 		gs = append(gs, rg)
 	}
+	// a repetition-heavy grammar: Many / SepBy over long inputs
+	{
+		g := gram.New("ab", 2)
+		g.NTs[0] = g.Mk(gram.OpSeqOf, g.Mk(gram.OpMany, g.Rune('a')), g.Mk(gram.OpSepBy, g.Ref(1), g.Rune('a')))
+		g.NTs[1] = g.Mk(gram.OpMany1, g.Rune('b'))
+		mg := &c14graph{name: "repetitions " + g.String(), build: func() parsley.Parser {
+			return combinator.Sentence(gram.Build(g, c14hooks(yieldEvery)).NTs[0])
+		}}
+		for _, in := range []string{"", "aaab", "b", strings.Repeat("a", 50), strings.Repeat("a", 10) + strings.Repeat("ba", 40) + "b", strings.Repeat("b", 45), strings.Repeat("ba", 20) + "c"} {
+			mg.inputs = append(mg.inputs, c14input{text: in})
+		}
+		gs = append(gs, mg)
+	}
 	for _, g := range gs {
+		private := g.build()
 		for i := range g.inputs {
-			g.inputs[i].want = c14outcome(g.root, g.inputs[i].text, g.eval, nil, nil)
+			g.inputs[i].want = c14outcome(private, g.inputs[i].text, g.eval, nil, nil)
 		}
 	}
 	return gs
@@ -211,6 +239,10 @@ func c14round(a *run.Acc, gs []*c14graph, r *rand.Rand, goroutines, procs, iters
 		}
 	}
 	var built int64
+	roots := make([]parsley.Parser, len(gs)) // fresh shared instances for this round
+	for i, g := range gs {
+		roots[i] = g.build()
+	}
 	for w := 0; w < goroutines; w++ {
 		wg.Add(1)
 		go func(w int) {
@@ -230,9 +262,9 @@ func c14round(a *run.Acc, gs []*c14graph, r *rand.Rand, goroutines, procs, iters
 				t0 := atomic.AddInt64(&clock, 1)
 				var got string
 				if sharedFS {
-					got = c14outcome(g.root, in.text, g.eval, fs, jb.f)
+					got = c14outcome(roots[jb.gi], in.text, g.eval, fs, jb.f)
 				} else {
-					got = c14outcome(g.root, in.text, g.eval, nil, nil)
+					got = c14outcome(roots[jb.gi], in.text, g.eval, nil, nil)
 				}
 				t1 := atomic.AddInt64(&clock, 1)
 				local = append(local, c14span{w, t0, t1})
